@@ -7138,6 +7138,7 @@ static PyObject* lacpy(PyObject *self, PyObject *args, PyObject *kwrds)
         err_char("trans", "'N', 'L', 'U'");
     if (m < 0) m = A->nrows;
     if (n < 0) n = A->ncols;
+    if (m == 0 || n == 0) return Py_BuildValue("");
     if (ldA == 0) ldA = MAX(1, A->nrows);
     if (ldA < MAX(1, m)) err_ld("ldA");
     if (ldB == 0) ldB = MAX(1, B->nrows);
@@ -7300,6 +7301,7 @@ static PyObject* larfx(PyObject *self, PyObject *args, PyObject *kwrds)
     if (ldC == 0) ldC = MAX(1, C->nrows);
     if (ldC < MAX(1,m)) err_ld("ldC");
     if (oC < 0) err_nn_int("offsetC");
+    if (m == 0 || n == 0) return Py_BuildValue("");
     if (oC + (n-1)*ldC + m > len(C)) err_buf_len("C");
 
 
